@@ -227,7 +227,7 @@ def run(ctx):
         "samples": [{"classes": [cl.keys[i] for i, _, _ in msgs][:4]}],
     })
     for f in fails[:3]:
-        ctx.violation(f["what"], dict(kind="c07", **f))
+        ctx.violation(f["what"], {**f, "check": "c07"})
     if disagreements and not fails:
         ctx.broken.append(f"correspondence: {len(disagreements)}; first: {disagreements[0]}")
 
